@@ -27,7 +27,7 @@ class C03(core.Prop):
         'matchCap_sound', 'matchCap_complete', 'coarse_sound', 'batch_extract_sound', 'extract_sound',
         'extract_sampled_sound', 'extract_sampled_terminates', 'extract_sampled_eq_batch',
         'tie_constants', 'tie_general_alnums']]
-    quick_n = 500
+    quick_n = 1500
     thorough_n = 40000
     rule = ('cases: example multisets of 1..14 strings from structured families (ids, phones, urls, e-mails, names, hex, '
             'padded words) and an alphabet of all ASCII printables, control characters, regex metacharacters, Unicode '
